@@ -74,6 +74,13 @@ impl Corpus {
         if with_g7 {
             g.extend(load_list(&root.join("G7_filter_passing.txt"), "I")?);
         }
+        // 8 chambers: the two symbols that reach a fallback branch of
+        // is_euclidean always (J0, J1), the other 39,499 in the thorough tier
+        let mut g8 = load_list(&root.join("G8_filter_passing.txt"), "J")?;
+        if !with_g7 {
+            g8.truncate(2);
+        }
+        g.extend(g8);
         let mut finite_small = load_list(&root.join("finite_small.txt"), "S")?;
         if with_g7 {
             // thorough tier: also the large universal covers (601..9216 chambers)
